@@ -647,3 +647,86 @@ Proof.
   destruct (ndg_view_eq_vgroup_view_lemma v st' Hv) as [A _]. rewrite A. unfold the_view, v. cbn [v_dims v_nt v_data_ref].
   rewrite ndg_dims_own_record_count. unfold zlen, effective_dims. rewrite map_length. reflexivity.
 Qed.
+
+(* --------------------------------------------------------------- round 2: name matching, array collapse *)
+Lemma prefix_eqb_same_length : forall a b, length a = length b -> prefix_eqb a b = true -> a = b.
+Proof.
+  induction a as [|x a IH]; destruct b as [|y b]; simpl; intros HL H; try discriminate; auto.
+  apply andb_true_iff in H. destruct H as [E P]. apply Z.eqb_eq in E. subst. f_equal. apply IH; [lia | assumption].
+Qed.
+Lemma prefix_eqb_refl : forall a, prefix_eqb a a = true.
+Proof. induction a; simpl; auto. rewrite Z.eqb_refl. assumption. Qed.
+
+(** the test SDgetdimstrs applies to a variable name is equality with the dimension name: a name that merely
+    starts with the dimension name does not match *)
+Lemma name_match_iff : forall dim var, name_match dim var = true <-> dim = var.
+Proof.
+  intros. unfold name_match. split.
+  - intro H. apply andb_true_iff in H. destruct H as [L P]. apply Nat.eqb_eq in L. apply prefix_eqb_same_length; assumption.
+  - intro; subst. rewrite Nat.eqb_refl, prefix_eqb_refl. reflexivity.
+Qed.
+
+Definition cv_step (dim : list Z) (acc : option cvar) (v : cvar) : option cvar :=
+  if (cv_rank v =? 1) && name_match dim (cv_name v) && negb (cv_is_sds v) then Some v else acc.
+
+Lemma find_coordvar_acc : forall dim vars acc,
+  (forall v, acc = Some v -> cv_name v = dim /\ cv_rank v = 1 /\ cv_is_sds v = false) ->
+  forall v, fold_left (cv_step dim) vars acc = Some v -> cv_name v = dim /\ cv_rank v = 1 /\ cv_is_sds v = false.
+Proof.
+  intros dim vars. induction vars as [|x vars IH]; intros acc Hacc v H; simpl in H.
+  - apply Hacc. assumption.
+  - eapply IH; [| exact H]. intros v0 Hv0. unfold cv_step in Hv0.
+    destruct ((cv_rank x =? 1) && name_match dim (cv_name x) && negb (cv_is_sds x)) eqn:E.
+    + inversion Hv0; subst. apply andb_true_iff in E. destruct E as [E E3]. apply andb_true_iff in E. destruct E as [E1 E2].
+      apply Z.eqb_eq in E1. apply name_match_iff in E2. apply negb_true_iff in E3. auto.
+    + apply Hacc. assumption.
+Qed.
+
+(** the strings SDgetdimstrs returns are those of a coordinate variable named exactly like the dimension ... *)
+Lemma find_coordvar_exact : forall dim vars v,
+  find_coordvar dim vars = Some v -> cv_name v = dim /\ cv_rank v = 1 /\ cv_is_sds v = false.
+Proof. intros dim vars v H. eapply (find_coordvar_acc dim vars None); [| exact H]. intros v0 H0; discriminate. Qed.
+
+Lemma find_coordvar_some_acc : forall dim vars acc, acc <> None -> fold_left (cv_step dim) vars acc <> None.
+Proof.
+  intros dim vars. induction vars as [|x vars IH]; intros acc H; simpl; auto.
+  apply IH. unfold cv_step. destruct ((cv_rank x =? 1) && name_match dim (cv_name x) && negb (cv_is_sds x)); [discriminate | assumption].
+Qed.
+
+Lemma find_coordvar_total_acc : forall dim vars acc v,
+  In v vars -> cv_name v = dim -> cv_rank v = 1 -> cv_is_sds v = false -> fold_left (cv_step dim) vars acc <> None.
+Proof.
+  intros dim vars. induction vars as [|x vars IH]; intros acc v HIn Hn Hr Hs; simpl in *; [contradiction |].
+  destruct HIn as [-> | HIn].
+  - apply find_coordvar_some_acc. unfold cv_step. rewrite Hr, Hn, Hs. rewrite Z.eqb_refl.
+    rewrite (proj2 (name_match_iff dim dim) eq_refl). simpl. discriminate.
+  - eapply IH; eauto.
+Qed.
+
+(** ... and such a variable is found whenever one exists *)
+Lemma find_coordvar_total : forall dim vars v,
+  In v vars -> cv_name v = dim -> cv_rank v = 1 -> cv_is_sds v = false -> find_coordvar dim vars <> None.
+Proof. intros. change (find_coordvar dim vars) with (fold_left (cv_step dim) vars None). eapply find_coordvar_total_acc; eauto. Qed.
+
+(** a dimension the collapse loop of DFSDIgetslice merges away is whole in the file AND in the caller's array: its
+    rows are contiguous in both (the property that makes treating two dimensions as one sound) *)
+Lemma collapse_only_whole_dimensions : forall a w s f,
+  collapse_break (a, w, s, f) = false -> w <= a -> 0 <= s -> s + w <= f -> a = w /\ s = 0 /\ w = f.
+Proof.
+  intros a w s f H Ha Hs Hf. unfold collapse_break, getslice_collapse_break in H.
+  apply negb_false_iff in H. apply Z.eqb_eq in H.
+  destruct (Z.ltb_spec w a), (Z.eqb_spec s 0), (Z.ltb_spec w f); simpl in H; try discriminate; lia.
+Qed.
+
+(** and conversely a whole dimension is merged (the optimisation is not lost) *)
+Lemma collapse_merges_whole_dimensions : forall a : Z, collapse_break (a, a, 0, a) = false.
+Proof.
+  intros. unfold collapse_break, getslice_collapse_break.
+  rewrite Z.ltb_irrefl. simpl. reflexivity.
+Qed.
+
+Lemma source_tie_round2 :
+  SDgetdimstrs_namematch = "namelen == (*dp)->name->len && strncmp(name, (*dp)->name->values, strlen(name)) == 0"%string /\
+  getslice_collapse_step = "wstart[i - 1] *= fdims[i]; wdims[i - 1] *= wdims[i]; adims[i - 1] *= adims[i]; fdims[i - 1] *= fdims[i]; rank--;"%string /\
+  getslice_fast_readsize = "readsize = wdims[0] * fileNTsize;"%string.
+Proof. repeat split; reflexivity. Qed.
